@@ -309,3 +309,82 @@ func c10SeenItemsAreSkipped(ctx *core.Ctx, cc *CC) {
 		ctx.Unresolved("C10.R22", "recursive collectors", "no self-recursive function with a seen-set parameter in the compiler")
 	}
 }
+
+// c02RequalifyEveryKind — C02.R20. A typedef found in an include resolves to a
+// type named relative to the include; UnderlyingType hands it back named
+// relative to the asking file by re-qualifying it (qualifyType). That applies
+// to every kind of resolved type — a container's element types are names too:
+// a re-qualification that is additionally conditioned on the kind of the
+// resolved type (`&& underlying.IsCustom()`) leaves `list<Inner>` of an include
+// with the bare name `Inner`, which the asking file resolves in its own tables
+// (wrong type generated; the audit compares `Inner` with `Inner`).
+func c02RequalifyEveryKind(ctx *core.Ctx, cc *CC, rule string) {
+	ctx.Rule(rule, "a type resolved through an include is re-qualified whatever its kind: the re-qualification in UnderlyingType depends only on whether the name was qualified", 1)
+	ut := cc.FnOpt("parser", "(*Frugal).UnderlyingType")
+	if ut == nil {
+		ctx.Unresolved(rule, "UnderlyingType", "function not found")
+		return
+	}
+	n := 0
+	for _, c := range ssax.Calls(ut) {
+		h := c.Static
+		if h == nil || h == ut || h.Pkg != ut.Pkg || h.Signature.Params().Len() != 2 || h.Signature.Results().Len() != 1 ||
+			!ssax.TypeNamed(h.Signature.Params().At(0).Type(), "parser", "Type") || !ssax.TypeNamed(h.Signature.Results().At(0).Type(), "parser", "Type") {
+			continue
+		}
+		if b, ok := h.Signature.Params().At(1).Type().Underlying().(*types.Basic); !ok || b.Kind() != types.String {
+			continue
+		}
+		n++
+		bad := ""
+		for cur := c.Instr.(ssa.Instruction).Block(); cur != nil; cur = cur.Idom() {
+			if len(cur.Preds) != 1 {
+				continue
+			}
+			p := cur.Preds[0]
+			iff, ok := p.Instrs[len(p.Instrs)-1].(*ssa.If)
+			if !ok || p.Succs[0] == p.Succs[1] {
+				continue
+			}
+			// the condition may be about the NAME (include qualifier present, typedef
+			// found, declaring file differs from this one) — not about the kind of a type
+			var kindTest func(v ssa.Value, d int) bool
+			kindTest = func(v ssa.Value, d int) bool {
+				if d > 5 || v == nil {
+					return false
+				}
+				switch x := v.(type) {
+				case *ssa.BinOp:
+					return kindTest(x.X, d+1) || kindTest(x.Y, d+1)
+				case *ssa.UnOp:
+					return kindTest(x.X, d+1)
+				case *ssa.Phi:
+					for _, e := range x.Edges {
+						if kindTest(e, d+1) {
+							return true
+						}
+					}
+				case *ssa.Call:
+					if cal := x.Call.StaticCallee(); cal != nil && cal.Signature.Recv() != nil && ssax.TypeNamed(cal.Signature.Recv().Type(), "parser", "Type") {
+						switch cal.Name() {
+						case "IncludeName", "ParamName":
+							return false
+						}
+						return true
+					}
+				case *ssa.FieldAddr:
+					return ssax.TypeNamed(x.X.Type(), "parser", "Type") && fieldNameOfAddr(x) != "Name"
+				}
+				return false
+			}
+			if kindTest(iff.Cond, 0) {
+				bad = cc.IPos(iff)
+			}
+		}
+		ctx.Check(bad == "", rule, QName(ut)+" › re-qualification through "+h.Name()+" is unconditional for included typedefs", cc.IPos(c.Instr.(ssa.Instruction)), "guarded only by the typedef lookup and by whether the name carries an include qualifier",
+			"the re-qualification is additionally conditioned at "+bad+" (on the kind of the resolved type): for a container typedef declared in an include the element types keep their include-relative names and are resolved in the wrong file — wrong Go types, and an audit that compares `Inner` with `Inner`")
+	}
+	if n == 0 {
+		ctx.Unresolved(rule, "re-qualification", "UnderlyingType calls no func(*Type, string) *Type helper")
+	}
+}
